@@ -28,6 +28,12 @@ def main():
 
     signal.signal(signal.SIGALRM, on_alarm)
     signal.alarm(limit)
+    cov = None
+    if os.environ.get("VERIF_COVERAGE"):  # development aid: which lines of the library does this check execute?
+        import coverage
+        from .common import REPO
+        cov = coverage.Coverage(data_file=os.environ["VERIF_COVERAGE"], source=[os.path.join(REPO, "linear_operator")])
+        cov.start()
     chk = Check(a.pid, a.tier, seed, replay=a.replay)
     mod = importlib.import_module(f"harness.checks.{a.pid.lower()}")
     try:
@@ -42,6 +48,9 @@ def main():
         sys.stderr.write(tb)
         chk.proof_break(f"harness({a.pid})", f"check crashed: {type(e).__name__}: {e} :: {tb[-600:]}")
     rc = chk.finish()
+    if cov is not None:
+        cov.stop()
+        cov.save()
     sys.stdout.flush()
     os._exit(rc)
 
